@@ -360,7 +360,9 @@ class Generator:
                         continue
                     if needle in normtok(src[c['body'][0]:c['body'][1]].decode()):
                         rct_taken.add(tuple(c['span']))
-                        add_edit(c['body'][0], c['body'][0], f'-> (cr: {rty}) ensures {ens} {{ ', 'RC')
+                        # an explicit `-> T` on the closure is replaced by the annotated form (same type, named result)
+                        start = c['ret'][0] if c.get('ret') else c['body'][0]
+                        add_edit(start, c['body'][0], f'-> (cr: {rty}) ensures {ens} {{ ', 'RC')
                         add_edit(c['body'][1], c['body'][1], ' }', 'RC')
                         n += 1
                 if n == 0:
